@@ -12,6 +12,7 @@ bookkeeping.  Not a claimed property (no entry in CHECKS / MANIFEST.json): run w
 the check is built against, no hook event arrives and the check ends with exit 2 ("hooks not installed"), never a pass."""
 import copy
 import json
+import os
 import re
 import threading
 from concurrent.futures import ThreadPoolExecutor
@@ -128,7 +129,7 @@ def selftest(ctx):
     """Corrupt one logged field (or delete one event) per event kind in a recorded trace: every corrupted copy must be rejected."""
     trace, rep_file = ctx.path("selftest.ndjson"), ctx.path("selftest.report.json")
     ctx.vh(["record", "-out", trace, "-report", rep_file, "-scenarios", json.dumps([SELFTEST_SCENARIO])], pkg="vh_x10",
-           expect_report=rep_file, timeout=600)
+           expect_report=rep_file, timeout=600, repo=instrumented(ctx))
     with open(trace) as f:
         src = [json.loads(l) for l in f if l.strip()]
     if not any(e["ev"] == "branch" for e in src):
@@ -239,12 +240,21 @@ def tally(trace, bad_lines):
     return ev, ok, scen
 
 
+HOOKS_PATCH = os.path.join(os.path.dirname(os.path.dirname(os.path.abspath(__file__))), "harness", "x10_hooks.patch")
+
+
+def instrumented(ctx):
+    """The goNEAT tree under check with the x10 hook lines of harness/x10_hooks.patch (31 `if verifOn { verifEmit(...) }` sites
+    in Species.reproduce and mutateAllNonstructural) applied to a scratch copy; None if the patch does not apply."""
+    return ctx.instrumented_repo(HOOKS_PATCH)
+
+
 def record_and_validate(ctx, idx, scs, sem):
     with sem:
         trace = ctx.path("x10-%d.ndjson" % idx)
         rep_file = ctx.path("x10-%d.report.json" % idx)
         _, rep, _ = ctx.vh(["record", "-out", trace, "-report", rep_file, "-scenarios", json.dumps(scs)],
-                           pkg="vh_x10", expect_report=rep_file, timeout=3000)
+                           pkg="vh_x10", expect_report=rep_file, timeout=3000, repo=instrumented(ctx))
         if rep.get("extra", {}).get("hook_events", 0) == 0:
             return {"scs": scs, "rep": rep, "fails": [], "events": 0, "trace": trace, "nohooks": True}
         r = ctx.tlc("Trace_Reproduce", env={"TRACE": trace}, workers=1, timeout=3000, xss=True)
@@ -303,7 +313,10 @@ def x10(ctx, replay):
         groups = chunk(scenarios(ctx.seed, ctx.tier), 700 if not thorough else 1500)
     if not groups:
         return
-    ctx.vh_binary(pkg="vh_x10")
+    if instrumented(ctx) is None:
+        raise Infra("the x10 hook patch (harness/x10_hooks.patch) does not apply to the goNEAT tree under check: the code at the "
+                    "hook sites of Species.reproduce / mutateAllNonstructural was changed; X10 cannot observe it")
+    ctx.vh_binary(pkg="vh_x10", repo=instrumented(ctx))
     with ThreadPoolExecutor(max_workers=5) as ex:
         fmc = ex.submit(model_check, ctx, sem, thorough) if replay is None else None
         fst = ex.submit(lambda: _with(sem, selftest, ctx)) if replay is None else None
@@ -411,7 +424,11 @@ def reproduce_traces(ctx, replay, prop):
         groups = [[s] for s in scs[:12]]
     else:
         groups = chunk(scenarios(ctx.seed, ctx.tier), 700 if ctx.tier != "thorough" else 1500)
-    ctx.vh_binary(pkg="vh_x10")
+    if instrumented(ctx) is None:
+        # the code around the hook sites was edited: this stage cannot observe reproduction; the other stages of the check decide
+        ctx.extra.setdefault("scope", {})["reproduction_traces"] = "skipped: " + str(ctx.extra.get("instrumentation"))
+        return
+    ctx.vh_binary(pkg="vh_x10", repo=instrumented(ctx))
     with ThreadPoolExecutor(max_workers=4) as ex:
         results = list(ex.map(lambda a: record_and_validate(ctx, a[0] + 300, a[1], sem), enumerate(groups)))
     if any(r["nohooks"] for r in results):
